@@ -87,7 +87,7 @@ func c10enumCount(c *Ctx) int64 {
 }
 
 func c10enumBases(c *Ctx) []string {
-	return []string{"examples/es/invoice-es-es", "examples/pt/invoice"}
+	return []string{"examples/es/invoice-es-es", "examples/pt/invoice", "examples/es/order"}
 }
 
 func decodeHistory(alpha []Op, l int, i int64) []Op {
@@ -128,7 +128,7 @@ func init() {
 		ID:    "C10",
 		Level: "exploration",
 		Rule: "histories of envelope operations (insert, calculate, content edits, sign with valid / public-only / empty keys, unsign, stamps, links, tags, meta, notes, identifier change, validate, verify, persist, crash-restart, lost write, re-encode, damaged signature list on disk) checked step by step against an executable reference model; " +
-			"check 'enum' enumerates every sequence over a 14-operation alphabet up to length 3 (quick) / 4 (thorough), and in thorough every sequence of length 5 and 6 over an 8-operation core alphabet, on two base documents, check 'life' draws longer seeded histories over 12 base documents; a case is one history, distinct by its operation sequence and base document, non-trivial when it contains at least one state-changing operation followed by an observation",
+			"check 'enum' enumerates every sequence over a 14-operation alphabet up to length 3 (quick) / 4 (thorough), and in thorough every sequence of length 5 and 6 over an 8-operation core alphabet, on three base documents (two invoices, one order), check 'life' draws longer seeded histories over 12 base documents; a case is one history, distinct by its operation sequence and base document, non-trivial when it contains at least one state-changing operation followed by an observation",
 		Assumptions: []string{
 			"which documents are structurally valid is asked of the implementation on a fresh parse of the same bytes; the model predicts how that fact, the digest fact, the signature list and the header combine over a history",
 			"after a signing that fails before a signature is appended, both 'signatures unchanged' and 'unsigned' are accepted (the statement is silent)",
